@@ -243,6 +243,19 @@ def check_trim(run, tier, rng):
                      ess=frac, bins=bins)
             continue
         run.case(key=("trim", t, n, frac, bins), nontrivial=len(idx) < n)
+        # threshold-set clause, independent of how the threshold was obtained: every kept weight exceeds every dropped one,
+        # and no dropped weight equals a kept one (ties are kept or dropped together)
+        kept = set(idx)
+        dropped = [float(wn[j]) for j in range(n) if j not in kept]
+        if idx and dropped and max(dropped) >= min(float(wn[j]) for j in idx):
+            run.fail("trim-not-upper-set", f"a dropped sample has weight {max(dropped)!r} >= the smallest kept weight "
+                     f"{min(float(wn[j]) for j in idx)!r}: the result is not 'all samples at or above a threshold'",
+                     w=[float(x).hex() for x in w[:30]], n=n, ess=frac, bins=bins, kept=idx[:20])
+            continue
+        if not thr:
+            run.fail("trim-threshold-not-a-percentile", "trim_weights returned without evaluating any percentile of the weights",
+                     w=[float(x).hex() for x in w[:30]], n=n, ess=frac, bins=bins)
+            continue
         k = bins - len(thr)  # grid index at which the loop stopped
         grid = np.linspace(0, 99, bins)
         fw = [Fraction(x) for x in wn] if n <= 40 else list(wn)
